@@ -59,8 +59,11 @@ def minimise(mod, case, signature, max_calls=600):
     return dict(case, txs=txs)
 
 
+OUT = os.environ.get("VERIF_OUT_DIR", ROOT)   # scratch location for seeded-change evaluations
+
+
 def write_replay(prop, viol):
-    d = os.path.join(ROOT, "replays", prop)
+    d = os.path.join(OUT, "replays", prop)
     os.makedirs(d, exist_ok=True)
     body = jsonable({"property": prop, "signature": viol.get("signature"), "clause": viol.get("clause"),
                      "detail": viol.get("detail"), "case": viol.get("case"),
@@ -156,8 +159,8 @@ def run_check(prop, tier, seed):
         "wall_s": round(time.time() - t0, 2),
         "violations": len(new_viol),
     }
-    os.makedirs(os.path.join(ROOT, "evidence"), exist_ok=True)
-    with open(os.path.join(ROOT, "evidence", f"{prop}.json"), "w") as f:
+    os.makedirs(os.path.join(OUT, "evidence"), exist_ok=True)
+    with open(os.path.join(OUT, "evidence", f"{prop}.json"), "w") as f:
         json.dump(ev, f, indent=1)
     summary = {k: cnt[k] for k in sorted(cnt) if not k.startswith("feat_")}
     print(f"[{prop} {tier} seed={seed}] evaluations={total['evaluations']} distinct_nontrivial={distinct} "
